@@ -183,6 +183,22 @@ def run_case(cfg, ctx):
                         "range() != reachable set: only in range() %s, only reachable %s" % (
                             sorted(rs - ys)[:4], sorted(ys - rs)[:4]),
                         {"range": sorted(rs)[:16], "reachable": sorted(ys)[:16]})
+    elif all_reached and dyadic and not has_range and cls in ("quantized_bits", "quantized_relu"):
+      # configurations for which the unchanged library refuses to enumerate (assert / no definition): if
+      # range() does answer, the answer has to be the reachable set as well
+      try:
+        r = qenv.as_np(q.range())
+      except Exception:      # pylint: disable=broad-except
+        r = None
+        ctx.count("range_not_defined")
+      if r is not None and cls == "quantized_bits" and kw.get("alpha") in (None, 1.0):
+        ctx.count("range_checked_beyond_documented_domain")
+        rs = set(np.asarray(r, dtype=np.float32).ravel().tolist())
+        ys = set(vals.tolist())
+        if rs != ys:
+          ctx.violation(dict(base, kind="range_mismatch"),
+                        "range() answers for this configuration but is not the reachable set: only in range() %s, only reachable %s" % (
+                            sorted(rs - ys)[:4], sorted(ys - rs)[:4]), {"range": sorted(rs)[:16], "reachable": sorted(ys)[:16]})
 
     # random tensors of every rank
     nrand = 4 if ctx.tier == "quick" else 16
